@@ -16,6 +16,9 @@ inductive CaseState where
   | window (w : Window Nat)
   | action
   | candle
+  | flags
+  | renkoNew (brick : String) (src : Nat)
+  | renko (st : Renko)
   | methodNew (name : String) (params : List String)
   | method (name : String) (params : List String) (st : MState) (ctx : Ctx) (prevLeaves : List String)
       (lstepOnly : Bool) (spec : SpecSt)
@@ -176,10 +179,12 @@ def step (d : Drv) (line : String) : Drv × Option String :=
       | "window", _ => CaseState.window Window.empty
       | "action", _ => CaseState.action
       | "candle", _ => CaseState.candle
+      | "flags", _ => CaseState.flags
+      | "renko", [b, s] => CaseState.renkoNew b s.toNat!
       | "method", name :: ps => CaseState.methodNew name ps
       | _, _ => CaseState.idle
     ({ d with cs := cs, caseId := id, comp := comp, sub := _params.headD "", cases := d.cases + 1, caseBad := false },
-      if comp == "window" || comp == "method" || comp == "action" || comp == "candle" then none else some s!"UNKNOWN-COMPONENT case={id} comp={comp}")
+      if comp == "window" || comp == "method" || comp == "action" || comp == "candle" || comp == "renko" || comp == "flags" then none else some s!"UNKNOWN-COMPONENT case={id} comp={comp}")
   | ["E"] => ({ d with cs := .idle }, none)
   | _ =>
     match d.cs with
@@ -187,6 +192,50 @@ def step (d : Drv) (line : String) : Drv × Option String :=
     | .skip => (d, none)
     | .methodNew _ _ => stepMethod d line
     | .method _ _ _ _ _ _ _ => stepMethod d line
+    | .renkoNew brick src =>
+      let parts := (line.splitOn ";").map words
+      let rust := unwords (parts.getD 1 [])
+      let d := { d with ops := d.ops + 1 }
+      (match op, (parseF brick) with
+       | "N" :: ins, some bf =>
+         match candleOfToks ins with
+         | none => ({ d with cs := .skip }, none)
+         | some c =>
+           let eps := pow2 (-52)
+           let r : Res Renko := match bf with
+             | .fin _ b => Renko.new eps b (Source.all.getD src .close) c
+             | _ => .err .wrongMethodParameters
+           let ms := match r with | .ok _ => "ok" | .err e => s!"err:{e}" | .panic _ => "P"
+           if ms != rust then mismatch d s!"constructor: rust={rust} model={ms}" line "constructor"
+           else match r, loadRenko (parts.getD 2 []) with
+             | .ok m, some rs =>
+               let ok := relOk eps rs.last_block_upper m.last_block_upper ∧ relOk eps rs.last_block_lower m.last_block_lower ∧
+                 relOk eps rs.next_block_upper m.next_block_upper ∧ relOk eps rs.next_block_lower m.next_block_lower ∧
+                 rs.brick_size == m.brick_size ∧ rs.volume == 0 ∧ rs.src == m.src
+               if ok then ({ d with cs := .renko rs }, none) else mismatch d "state after new differs from the model" line "constructor-state"
+             | .ok _, none => mismatch d "state after new not finite" line "constructor-state"
+             | _, _ => ({ d with cs := .skip }, none)
+       | _, _ => ({ d with cs := .skip }, none))
+    | .renko st =>
+      let parts := (line.splitOn ";").map words
+      let d := { d with ops := d.ops + 1, lsteps := d.lsteps + 1 }
+      (match op with
+       | "X" :: ins =>
+         if parts.getD 1 [] == ["P"] then mismatch d "Renko::next panicked" line "panic"
+         else match candleOfToks (ins.take 5), (ins.getD 5 "").toList.isEmpty, parseRat (ins.getD 5 "") with
+           | some c, false, some value =>
+             match renkoStep (pow2 (-52)) st c value (parts.getD 1 []) (parts.getD 2 []) (parts.getD 3 []) (parts.getD 4 []) with
+             | some m => mismatch d m line "semantic"
+             | none => ({ d with cs := match loadRenko (parts.getD 4 []) with | some s => .renko s | none => .skip }, none)
+           | _, _, _ => ({ d with cs := .skip }, none)
+       | _ => (d, none))
+    | .flags =>
+      -- Rust-vs-Rust (or Rust-vs-definition) comparisons made inside the harness: every flag must be set
+      let d := { d with ops := d.ops + 1 }
+      if res.any (· == "ok=i1") then (d, none)
+      else
+        let d := { d with mism := d.mism + 1, badCases := if d.caseBad then d.badCases else d.badCases + 1, caseBad := true }
+        (d, some s!"MISMATCH case={d.caseId} comp={d.comp} sub={d.sub}:{op.getD 1 ""} class=rust-vs-rust line={d.lineNo} op=\"{(unwords op).take 200}\" what=\"{unwords res}\"")
     | .candle =>
       let parts := (line.splitOn ";").map words
       let bad : Option String := match op with
